@@ -25,8 +25,8 @@ META = {
         "bucket, |optimal set| bucket, relation)."
     ),
     "floors": {
-        "quick": {"evaluations": 1500, "mon.reorder": 100, "mon.rename": 100, "mon.outgroup": 100, "mon.scale": 100, "mon.monotone": 100, "mon.rerun": 100, "mon.cross_process_cases": 20},
-        "thorough": {"evaluations": 40000, "mon.reorder": 3000, "mon.rename": 3000, "mon.outgroup": 3000, "mon.scale": 3000, "mon.monotone": 3000, "mon.rerun": 3000, "mon.cross_process_cases": 150},
+        "quick": {"evaluations": 1500, "mon.reorder": 100, "mon.rename": 100, "mon.outgroup": 100, "mon.scale": 100, "mon.monotone": 100, "mon.rerun": 100, "mon.reorder_inplace": 100, "mon.cross_process_cases": 20},
+        "thorough": {"evaluations": 40000, "mon.reorder": 3000, "mon.rename": 3000, "mon.outgroup": 3000, "mon.scale": 3000, "mon.monotone": 3000, "mon.rerun": 3000, "mon.reorder_inplace": 3000, "mon.cross_process_cases": 150},
     },
     "exhaustive": {"quick": False, "thorough": False},
     "assumptions": ["relations are metamorphic: they do not need an oracle for the optimum itself (C01-C03 provide that on small inputs)", "cost vectors inside the coherent region before and after each change"],
@@ -199,10 +199,19 @@ def check_relations(ctx, case, rng):
     else:
         compare("reorder", c2, canon_sorted_syn(r["set"]) if kind == "unordered" else r["set"], r["min"])
 
+    # 2b. child reordering done in place on the SAME tree objects, which are then indexed again (history)
+    B.reindexed_inplace(rng)
+    r = solve(case, B=B)
+    ctx.count("evaluations")
+    if r["exc"]:
+        ctx.viol("C09.reorder_inplace", case, f"{algo} raised after an in-place child reordering of trees used before: {r['exc']}")
+    else:
+        compare("reorder_inplace", None, canon_sorted_syn(r["set"]) if kind == "unordered" else r["set"], r["min"])
+
     # 3. bijective renaming of nodes and families
     gl = sorted(case["leafmap"])
     sl = sorted({x for x in _leaves(case["S"])})
-    fams = sorted({f for s in case.get("syn", {}).values() for f in s}) if case.get("syn") else []
+    fams = sorted({f for s in case.get("syn", {}).values() for f in s} | set(case.get("root_order") or ())) if case.get("syn") else []
     g2 = dict(zip(gl, rng.sample([f"x{i}y" for i in range(len(gl) + 3)], len(gl))))
     s2 = dict(zip(sl, rng.sample([f"Sp{i}" for i in range(len(sl) + 3)] + ["Q", "zeta"], len(sl))))
     f2 = dict(zip(fams, rng.sample([f"fam{i}" for i in range(len(fams) + 2)] + ["b10", "b9", "a", "Z"], len(fams))))
